@@ -797,6 +797,8 @@ func runC16(p *core.Prog, r *core.Report) {
 		})
 		r.Check(okFirst, "C16.R4", "applyExecutionResult/error-first", "a module's run error is returned before any of its output is recorded for the block", "outputs recorded before the error test", p.Pos(ap.Pos()))
 	})
+	r.Guard("C16.R1", "wasmCall", "where the deterministic marker is attached", func() { checkWasmCallClassification(p, r, "C16.R1") })
+	r.Guard("C16.R4", "OnStreamTerminated", "graceful end only", func() { checkOnStreamTerminated(p, r, "C16.R4") })
 	r.MinInstances("C16.R1", 8)
 	r.MinInstances("C16.R2", 16)
 	r.MinInstances("C16.R3", 8)
